@@ -170,6 +170,22 @@ let run_case cid t h v ops =
         let b x = if x then "1" else "0" in
         Printf.printf "%s tinfo pow2=%s wf=%s wt=%s deser=%s exh=%s unit=%s need=%s cover=%s\n" cid (b (units_pow2 t)) (b (wf t)) (b (wt t v))
           (b (deserializable dt)) (b (exhausted_in t v)) (hex_of_n (unit_of dt)) (hex_of_n (need t v)) (b (units_cover t))
+      | ["gold"; base; hexb] ->
+        (* a stored file: decoded by the reference decoder with the header found in the file *)
+        let b = bytes_of_hex hexb in
+        let f = code_of show_val (deser_full_top h dt b)
+        and e = code_of (fun v -> show_val (erase v)) (deser_eps_top (n_of_hex base) h dt b) in
+        Printf.printf "%s gold full=%s eps=%s\n" cid f e
+      | ["load"] ->
+        (* the four loaders on the stored file, regions based at a page-aligned address *)
+        if out = SDone then begin
+          let b0 = n_of_hex "10000" in
+          let one l = code_of (fun v -> show_val (erase v)) (load l b0 h dt bytes) in
+          let cap l = hex_of_n (capacity l (evs_len evs)) in
+          Printf.printf "%s load full=%s mem=%s lmmap=%s mmap=%s capmem=%s caplmmap=%s flags=%s\n" cid (one LFull) (one LMem) (one LMmap) (one LMap)
+            (cap LMem) (cap LMmap)
+            (String.concat "," (List.map (fun f -> Printf.sprintf "%d>%s" f (hex_of_n (mmap_flag_bits (n_of_int f)))) [0;1;2;3;4;5;6;7]))
+        end
       | ["feed"] ->
         let hx l = if l = [] then "-" else hex_of_bytes l in
         Printf.printf "%s feed t=%s a=%s\n" cid (hx (tfeed dt)) (hx (align_feed dt))
